@@ -43,7 +43,11 @@
     - `lock(); wait(&mut lock)` (l.2465-2466) is one step [CWait] (the mutex is held for that
       span only; nobody else takes it except the `Quit` store, which commutes with it);
       re-acquiring the mutex after the wake-up, the test and `drop(lock)` are one step [CCheck];
-      `*gc_signal.0.lock() = Quit; notify_one()` is one step (part of [ADropBegin]).
+      `*gc_signal.0.lock() = Quit; notify_one()` is one step (part of [ADropBegin]), placed at the
+      moment of the `notify_one` (the store commutes with every collector step but the test
+      [CCheck], which only a notified collector executes; if that test comes between store and
+      notification, place the step at the store: the notification then finds nobody waiting).
+      So "when the quit is sent" in the theorems means: when its `notify_one` executes.
     - the RwLock is readers / writer without fairness (an enabled [AEnterS] may block in
       parking_lot when a writer waits: fewer behaviours there).
     - handles: `ManagerRef`s and `Function`s (a `Function` owns a `ManagerRef`, l.2590-2605) are
